@@ -397,6 +397,14 @@ Lemma writes_opt_metadata d0 tag mo :
             (doc_opt_md tag mo).
 Proof. destruct mo; [apply writes_metadata_field|apply writes_nothing]. Qed.
 
+Lemma doc_token_unfold t : doc_token t =
+  doc_varint_field (tg_tok "Type") (t_type t)
+  ++ doc_len_field (tg_tok "Value") (caster_marshal (t_value t))
+  ++ doc_bytes_field (tg_tok "Properties") (t_props t)
+  ++ doc_opt_md (tg_tok "TokenMetaData") (t_meta t)
+  ++ doc_bytes_field (tg_tok "Reserved") (t_reserved t).
+Proof. reflexivity. Qed.
+
 (* the Value slot of a zero amount has to be clean *)
 Definition clean_for (t : token) (d0 : bytes) : Prop := t_value t = Some 0%Z -> Forall (eq x00) d0.
 
@@ -405,9 +413,7 @@ Theorem tsb_token_doc : forall t d0, zlen (doc_token t) <= zlen d0 -> clean_for 
 Proof.
   intros t d0 Hb Hc. pose proof (st_init d0) as Hst0. unfold tsb_token. cbv zeta.
   pose proof (writes_value d0 (tg_tok "Value") (t_value t) Hc) as Wv. clear Hc.
-  unfold doc_token in Hb |- *.
-  change (match t_meta t with Some m => doc_len_field (tg_tok "TokenMetaData") (doc_metadata m) | None => [] end)
-    with (doc_opt_md (tg_tok "TokenMetaData") (t_meta t)) in Hb |- *.
+  rewrite doc_token_unfold in Hb |- *.
   wstep (writes_opt_bytes d0 (tg_tok "Reserved") (t_reserved t)).
   wstep (writes_opt_metadata d0 (tg_tok "TokenMetaData") (t_meta t)).
   wstep (writes_opt_bytes d0 (tg_tok "Properties") (t_props t)).
@@ -421,4 +427,109 @@ Theorem tsb_token_spec : forall t d0, Z.of_N (size_token t) <= zlen d0 -> clean_
 Proof.
   intros t d0 Hb Hc. rewrite size_token_eq, <- zlen_clen in *. rewrite enc_token_format in *.
   apply tsb_token_doc; assumption.
+Qed.
+
+(* ================= Marshal() and MarshalTo() ================= *)
+Lemma Forall_zeros n : Forall (eq x00) (repeat x00 n).
+Proof. induction n; cbn [repeat]; constructor; auto. Qed.
+Lemma Forall_firstn {A} (P : A -> Prop) n l : Forall P l -> Forall P (firstn n l).
+Proof. intros H. rewrite <- (firstn_skipn n l) in H. apply Forall_app in H. apply H. Qed.
+
+Lemma slice_to_all d : slice_to d (zlen d) = Some d.
+Proof.
+  unfold slice_to. replace ((zlen d <? 0) || (zlen d <? zlen d)) with false by zl.
+  unfold zlen. rewrite Nat2Z.id, firstn_all. reflexivity.
+Qed.
+
+Section Generic.
+  Context {X : Type}.
+  Variable size_of : X -> N.
+  Variable tsb : X -> bytes -> R (Z * bytes).
+  Variable enc : X -> bytes.
+  Variable ok_for : X -> bytes -> Prop.                (* what the buffer has to satisfy (nothing, or [clean_for]) *)
+  Hypothesis size_enc : forall m, size_of m = clen (enc m).
+  Hypothesis tsb_spec : forall m d0, Z.of_N (size_of m) <= zlen d0 -> ok_for m d0 ->
+    tsb m d0 = Ok (Z.of_N (size_of m), firstn (Z.to_nat (zlen d0 - Z.of_N (size_of m))) d0 ++ enc m).
+
+  (* a buffer of exactly Size() bytes is filled completely: n = Size(), i ends at 0 *)
+  Lemma tsb_exact m d0 : zlen d0 = Z.of_N (size_of m) -> ok_for m d0 -> tsb m d0 = Ok (Z.of_N (size_of m), enc m).
+  Proof.
+    intros Hl Hok. rewrite tsb_spec by (auto; lia). replace (zlen d0 - Z.of_N (size_of m)) with 0 by lia.
+    reflexivity.
+  Qed.
+
+  Lemma marshal_generic_spec m :
+    ok_for m (repeat x00 (Z.to_nat (Z.of_N (size_of m)))) -> marshal_generic size_of tsb m = Ok (enc m).
+  Proof.
+    intros Hok. unfold marshal_generic. cbv zeta.
+    set (buf := repeat x00 (Z.to_nat (Z.of_N (size_of m)))) in *.
+    assert (Hl : zlen buf = Z.of_N (size_of m)) by (unfold buf, zlen; rewrite repeat_length; lia).
+    rewrite <- Hl at 1. rewrite slice_to_all. cbn [orp rbind].
+    rewrite tsb_exact by assumption. cbn [rbind].
+    rewrite size_enc, <- zlen_clen. rewrite slice_to_all. reflexivity.
+  Qed.
+
+  (* MarshalTo into an array of capacity >= Size(): the encoding at the front, the rest untouched *)
+  Lemma marshal_to_generic_spec m arr :
+    Z.of_N (size_of m) <= zlen arr -> ok_for m (firstn (Z.to_nat (Z.of_N (size_of m))) arr) ->
+    marshal_to_generic size_of tsb m arr = Ok (Z.of_N (size_of m), enc m ++ skipn (Z.to_nat (Z.of_N (size_of m))) arr).
+  Proof.
+    intros Hb Hok. unfold marshal_to_generic. cbv zeta. unfold slice_to.
+    replace ((Z.of_N (size_of m) <? 0) || (zlen arr <? Z.of_N (size_of m))) with false by lia.
+    cbn [orp rbind]. rewrite tsb_exact; [reflexivity| |exact Hok].
+    unfold zlen in *. rewrite firstn_length. lia.
+  Qed.
+
+  (* capacity < Size(): dAtA[:size] panics *)
+  Lemma marshal_to_generic_small m arr : zlen arr < Z.of_N (size_of m) -> marshal_to_generic size_of tsb m arr = Panic.
+  Proof.
+    intros Hb. unfold marshal_to_generic. cbv zeta. unfold slice_to.
+    replace ((Z.of_N (size_of m) <? 0) || (zlen arr <? Z.of_N (size_of m))) with true by lia. reflexivity.
+  Qed.
+End Generic.
+
+Definition always_ok {X} (_ : X) (_ : bytes) : Prop := True.
+
+Theorem marshal_go_roles_eq : forall r, marshal_go_roles r = Ok (enc_roles r).
+Proof.
+  intros r. apply (marshal_generic_spec size_roles tsb_roles enc_roles always_ok size_roles_eq).
+  - intros m d0 Hb _. apply tsb_roles_spec, Hb.
+  - exact I.
+Qed.
+
+Theorem marshal_go_metadata_eq : forall m, marshal_go_metadata m = Ok (enc_metadata m).
+Proof.
+  intros m. apply (marshal_generic_spec size_metadata tsb_metadata enc_metadata always_ok size_metadata_eq).
+  - intros m' d0 Hb _. apply tsb_metadata_spec, Hb.
+  - exact I.
+Qed.
+
+Theorem marshal_go_token_eq : forall t, marshal_go_token t = Ok (enc_token t).
+Proof.
+  intros t. apply (marshal_generic_spec size_token tsb_token enc_token clean_for size_token_eq tsb_token_spec).
+  intros _. apply Forall_zeros.
+Qed.
+
+Theorem marshal_to_roles_spec : forall r arr, Z.of_N (size_roles r) <= zlen arr ->
+  marshal_to_roles r arr = Ok (Z.of_N (size_roles r), enc_roles r ++ skipn (Z.to_nat (Z.of_N (size_roles r))) arr).
+Proof.
+  intros r arr Hb. apply (marshal_to_generic_spec size_roles tsb_roles enc_roles always_ok size_roles_eq); [|exact Hb|exact I].
+  intros m d0 Hb' _. apply tsb_roles_spec, Hb'.
+Qed.
+
+Theorem marshal_to_metadata_spec : forall m arr, Z.of_N (size_metadata m) <= zlen arr ->
+  marshal_to_metadata m arr
+  = Ok (Z.of_N (size_metadata m), enc_metadata m ++ skipn (Z.to_nat (Z.of_N (size_metadata m))) arr).
+Proof.
+  intros m arr Hb.
+  apply (marshal_to_generic_spec size_metadata tsb_metadata enc_metadata always_ok size_metadata_eq); [|exact Hb|exact I].
+  intros m' d0 Hb' _. apply tsb_metadata_spec, Hb'.
+Qed.
+
+Theorem marshal_to_token_spec : forall t arr, Z.of_N (size_token t) <= zlen arr -> clean_for t arr ->
+  marshal_to_token t arr = Ok (Z.of_N (size_token t), enc_token t ++ skipn (Z.to_nat (Z.of_N (size_token t))) arr).
+Proof.
+  intros t arr Hb Hc.
+  apply (marshal_to_generic_spec size_token tsb_token enc_token clean_for size_token_eq tsb_token_spec); [exact Hb|].
+  intros Hv. apply Forall_firstn, Hc, Hv.
 Qed.
